@@ -97,7 +97,7 @@ _pos = r'[1-9][0-9]*'
 _LINE = re.compile(r'\[ *(?P<ts>[0-9]+[.,][0-9]{3})\](?: \{(?P<queue>[A-Za-z0-9 _-]*)\})?(?: <(?P<conn>' + _uint + r')>)?'
                    r'(?P<dir>  -> | )(?P<type>' + _ident + r')(?P<sep>[@#])(?P<id>' + _pos + r')\.(?P<name>' + _ident + r')\((?P<args>.*)\)', re.ASCII | re.DOTALL)
 _ARG = re.compile(
-    r'(?P<str>"[ !#-\[\]-~]*")'
+    r'(?P<str>"(?:[ !#-\[\]-~]|[^\x00-\xa0])*")'         # printable text without " and backslash; text outside ASCII (UTF-8 titles) is printed as it is
     r'|(?P<newu>new id \[unknown\][@#](?P<newu_id>' + _pos + r'))'
     r'|(?P<new>new id (?P<new_type>' + _ident + r')[@#](?P<new_id>' + _pos + r'))'
     r'|(?P<fd>fd (?P<fd_v>' + _uint + r'))'
